@@ -20,7 +20,13 @@ META = {
              "rows are exactly the non-conjugate ones, and that the chain is the sequence of generator draws; every row of the "
              "decision table reaches the sampler on four paths (constructor; SetTarget on a sampler constructed without target, "
              "constructed on a supported posterior, stepped on a supported posterior) and the decision must not depend on the "
-             "path (DecisionIgnoresHistory); five named deviations must violate DrawnIsTarget / DecisionIgnoresHistory. Every "
+             "path (DecisionIgnoresHistory); every accepted pair of the table (and numeric Gaussian / GMRF instances) is also "
+             "written with a scalar mean broadcast over the geometry, a constant vector, a callable / linear-model mean, "
+             "CUQIarray / list data and a vector / matrix scale, and FormIndependent says the Gamma is the one of the full-vector "
+             "writing (shape = rank/2 + alpha whatever the length of the mean as given); pairs of configurations on one sampler "
+             "(draw, replace data / mean / alpha / beta by assigning a re-conditioned posterior or through the Gamma prior's "
+             "public setters, draw) must make the second draw from the second configuration's Gamma (SecondDrawIsNew); seven "
+             "named deviations must violate DrawnIsTarget / DecisionIgnoresHistory / FormIndependent / SecondDrawIsNew. Every "
              "emitted instance x path is replayed into the real samplers (both interfaces; target assignment in the "
              "experimental interface, which documents it): arguments of numpy.random.gamma vs TLC's exact (shape, rate), "
              "constant-difference identity against the real target.logd at d=1,2,4, accept/reject outcome, chain values = "
@@ -31,7 +37,9 @@ META = {
              "sqrt(eps) diagonal jitter of GMRF.sqrtprec. Legacy rows that are accepted but exact (prec = 2 d, "
              "sqrtprec = sqrt(d)) are observations, not violations. Assigning to the plain `target` attribute of the legacy "
              "classes (no documented setter) is recorded, not asserted; numeric sweep instances take the SetTarget path in the "
-             "thorough tier only."),
+             "thorough tier only. Writings of the inputs other than the documented ones may be refused when the target is given "
+             "(recorded); ConjugateApprox under other writings / after a change is compared with the same class on the plain "
+             "writing / a fresh sampler and with the additivity of the prior parameters (its Gamma is not predicted)."),
     "technique": "TLA+ spec (Conjugate, extends DiffOps) model-checked with TLC; TLC-emitted cases replayed into cuqi samplers with scripted numpy.random.gamma",
 }
 
@@ -459,7 +467,7 @@ def replay_conj(ctx, c):
     if c["model"] == 1:
         reals = ["hier"]
     via = _via(c)
-    if via != "ctor":
+    if via != "ctor" or _is_form(c):
         reals = reals[:1]
     draws = _own_draws(c)
     for real in reals:
@@ -467,6 +475,9 @@ def replay_conj(ctx, c):
             target = build_target(c, real)
             base = _base_target(ctx, c)
         except Exception as e:
+            if c.get("mayrefuse"):
+                _form_outcome(ctx, c, "joint", "posterior cannot be formed: %s" % type(e).__name__)
+                continue
             ctx.mismatch("build/%s/%s" % (real, key), c, "the posterior cannot be formed by conditioning the joint distribution: %r" % e)
             continue
         for iface in ("exp", "legacy"):
@@ -489,10 +500,18 @@ def replay_conj(ctx, c):
                 continue
             check_base_step(ctx, c, iface, res)
             if c["accept"]:
+                if c.get("mayrefuse") and (res["stage"] == "construct" or
+                                           (iface == "legacy" and res["stage"] == "step" and not res["chain"])):
+                    # another writing of a supported pair: the docstrings state the table for the scalar callable and the
+                    # plain vectors only, a refusal before any value is produced is recorded
+                    _form_outcome(ctx, c, iface, "refused (%s): %s" % (res["stage"], (res["error"] or "").split(":")[0]))
+                    continue
                 if res["stage"] is not None:
                     ctx.mismatch("rejects_supported/" + sig, c, "a documented conjugate pair is refused (%s): %s" % (res["stage"], res["error"]))
                     continue
-                check_accepted(ctx, c, iface, real, target, res, draws)
+                ok = check_accepted(ctx, c, iface, real, target, res, draws)
+                if _is_form(c):
+                    _form_outcome(ctx, c, iface, "draws from the conditional" if ok else "draws from another distribution")
                 continue
             # expected: rejected
             if res["stage"] == "construct":
@@ -537,11 +556,201 @@ def replay_conj(ctx, c):
                          observed={"gamma(shape, rate)": res["gammas"][0][:2], "chain": res["chain"]})
 
 
+def _form_outcome(ctx, c, iface, what):
+    """Observation: what became of a writing of the inputs other than the plain one (counts per interface and form)."""
+    ob = ctx.observations.setdefault("input_forms", {})
+    k = "%s/%s/%s/mform=%s/dform=%s/sform=%s: %s" % (iface, c["fam"], c["attr"], c.get("mform"), c.get("dform"), c.get("sform"), what)
+    ob[k] = ob.get(k, 0) + 1
+
+
+def _check_approx_form(ctx, c, iface, sig, res, draws):
+    """FormIndependent for the approximate sampler, whose Gamma the specification does not predict: the Gamma is a function
+    of the content, so it is the one the same sampler class draws from for the plain writing (full vectors, ndarray data)
+    of the same content, handed to a fresh sampler by the constructor."""
+    if not (_is_form(c) and res["gammas"]):
+        return
+    c0 = dict(c, mform="vector", dform="ndarray", sform="scalar", via="ctor")
+    ref = run_sampler(iface, build_target(c0, "pair"), c["init"], draws[:1])
+    if ref["stage"] is not None or not ref["gammas"]:
+        return
+    (a, r), (a0, r0) = res["gammas"][0][:2], ref["gammas"][0][:2]
+    if abs(a - a0) > 1e-9 * max(1.0, abs(a0)) or abs(r - r0) > 1e-9 * max(1.0, abs(r0)):
+        ctx.mismatch("approx_form/" + sig, c, "the Gamma ConjugateApprox draws from depends on how the location / the data were written "
+                     "(scalar or vector location, ndarray / CUQIarray / list data), not only on their content",
+                     expected=(a0, r0), observed=(a, r))
+        _form_outcome(ctx, c, iface, "draws from another distribution")
+    else:
+        _form_outcome(ctx, c, iface, "draws as for the plain writing")
+
+
+# ----------------------------------------------------------------------------------------------------------------
+# pairs of configurations on one sampler object (Conjugate.tla: draw, Change, draw)
+# ----------------------------------------------------------------------------------------------------------------
+def _second(c):
+    """The second configuration of a pair as a case record of its own (same key: the pair is the case)."""
+    s = c["second"][0]
+    c2 = dict(c)
+    c2.update(s["rec"])
+    c2.update({k: s[k] for k in ("m", "k", "nrows", "q", "l1")})
+    c2.update(chg=c["chg"], how=c["how"], via=c.get("via", "ctor"), init=c["init"], second=[])
+    return c2
+
+
+def run_pair(iface, c, c2, draws):
+    """One sampler object: constructed on the posterior of c, one step; the change of the pair through public means
+    (how = set_target: the posterior of c2, conditioned afresh, is assigned; how = assign: the public setter of the Gamma
+    prior's shape / rate on the target the sampler holds); one more step.
+    Returns dict(stage=None|'construct'|'step1'|'change'|'step2', error, g=[gammas of draw 1, of draw 2],
+    coef=[coefficients of the target's own log-density at the time of each draw], chain, returned)."""
+    from cuqiverif import script_rng
+    from cuqiverif.core import MachineryError
+    cls = _sampler_classes()[iface]
+    exp = iface.startswith("exp")
+    init = c["init"]
+    out = {"stage": None, "error": None, "g": [[], []], "coef": [None, None], "chain": [], "returned": [[], []]}
+    ret = []
+
+    def mk(v):
+        def f(shape):
+            ret.append(float(v))
+            return np.full(shape, float(v))
+        return f
+    filler = {"gamma": lambda shape: mk(100.0 + len(ret))(shape)}
+
+    def gammas(log):
+        g = []
+        for fn, kind, shape, args in log:
+            if kind != "gamma":
+                raise MachineryError("unexpected random draw %s of kind %s in a conjugate step" % (fn, kind))
+            a = np.asarray(args["shape"], dtype=float).ravel()
+            sc = np.asarray(args["scale"], dtype=float).ravel()
+            g.append((float(a[0]), float(1.0 / sc[0]), a.size, int(np.prod(shape)) if shape else 1))
+        return g
+
+    def coef(t):
+        try:
+            return target_coefficients(t)
+        except Exception as e:
+            return e
+
+    target = build_target(c, "pair")
+    try:
+        with script_rng.scripted({"gamma": [mk(v) for v in draws]}, default=filler) as st:
+            x = np.array([float(init)])
+            try:
+                s = cls(target, initial_point=np.array([float(init)])) if exp else cls(target)
+            except Exception as e:
+                out["stage"], out["error"] = "construct", "%s: %s" % (type(e).__name__, str(e)[:160])
+                return out
+            for i in (0, 1):
+                n0, r0 = len(st.log), len(ret)
+                if i == 1:
+                    try:
+                        if c["how"] == "set_target":
+                            target = build_target(c2, "pair")
+                            s.target = target
+                        else:
+                            attr, val = ("shape", c2["alpha"]) if c["chg"] == "alpha" else ("rate", c2["beta"])
+                            setattr(s.target.prior, attr, float(_fr(val)))
+                            target = s.target
+                    except Exception as e:
+                        out["stage"], out["error"] = "change", "%s: %s" % (type(e).__name__, str(e)[:160])
+                        return out
+                try:
+                    if exp:
+                        s.sample(1)
+                        out["chain"] = [float(v) for v in np.asarray(s.get_samples().samples).ravel()]
+                    else:
+                        x = np.atleast_1d(np.asarray(s.step(x), dtype=float))
+                        out["chain"].append(float(x.ravel()[0]))
+                except script_rng.ScriptError:
+                    raise
+                except Exception as e:
+                    out["stage"], out["error"] = "step%d" % (i + 1), "%s: %s" % (type(e).__name__, str(e)[:160])
+                    return out
+                out["g"][i] = gammas(st.log[n0:])
+                out["returned"][i] = ret[r0:]
+                if c["fam"] != "lmrf":
+                    out["coef"][i] = coef(target)
+    except script_rng.ScriptError as e:
+        raise MachineryError("scripted generator cannot follow the sampler: %s" % e)
+    return out
+
+
+def replay_pair(ctx, c):
+    """A pair of configurations (c, Second(c)) of Conjugate.tla on ONE sampler object: the Gamma of the second draw must be
+    the one of the second configuration (TLC's exact pair; the coefficients of the changed target's own log-density)."""
+    key = _key(c)
+    c2 = _second(c)
+    draws = [float(v) for v in c["chain"]]
+    approx = c["fam"] == "lmrf"
+    for iface in (("exp_approx", "legacy_approx") if approx else ("exp", "legacy")):
+        legacy = iface.startswith("legacy")
+        if legacy and c["how"] == "set_target":
+            # `target` of the legacy classes is a plain attribute, validation is documented for the constructor only
+            # (legacy Gibbs constructs a new sampler per sweep): not exercised
+            continue
+        ctx.case(("pair", key, iface, tuple(draws)), facet="%s/pair/%s/%s" % (iface, c["chg"], c["how"]))
+        ctx.traces += 1
+        sig = "%s/pair/%s" % (iface, key)
+        try:
+            res = run_pair(iface, c, c2, draws)
+        except Exception as e:
+            from cuqiverif.core import MachineryError
+            if isinstance(e, MachineryError):
+                raise
+            ctx.mismatch("build/pair/" + key, c, "a posterior of the pair cannot be formed by conditioning the joint distribution: %r" % (e,))
+            continue
+        ob = ctx.observations.setdefault("pairs_on_one_sampler", {})
+        k = "%s/%s/%s/%s: %s" % (iface, c["fam"], c["chg"], c["how"], res["stage"] or "two draws")
+        ob[k] = ob.get(k, 0) + 1
+        if res["stage"] == "change" and c["how"] == "assign":
+            continue                     # the assignment is refused: recorded, nothing is drawn from a wrong distribution
+        if res["stage"] is not None:
+            ctx.mismatch("rejects_supported/%s/stage=%s" % (sig, res["stage"]), c,
+                         "a documented conjugate pair is refused / cannot be stepped (%s): %s" % (res["stage"], res["error"]))
+            continue
+        if res["chain"] != draws:
+            ok = all(_is_subsequence(res["chain"][i:i + 1], res["returned"][i]) for i in (0, 1)) and len(res["chain"]) == 2
+            if not ok:
+                ctx.mismatch("chain_value/" + sig, c, "the chain is not made of the values returned by the Gamma generator",
+                             expected=draws, observed=res["chain"])
+        if not approx:
+            for i, ci in enumerate((c, c2)):
+                ri = {"gammas": res["g"][i], "chain": res["chain"][i:i + 1], "returned": res["returned"][i]}
+                check_accepted(ctx, ci, iface, "pair", None, ri, draws[i:i + 1], sigx="/draw=%d" % (i + 1), coeffs=res["coef"][i])
+            continue
+        # approximate sampler: the specification predicts no (shape, rate); it states that the prior enters additively and
+        # that the Gamma is a function of the configuration in force only
+        if not (res["g"][0] and res["g"][1]):
+            from cuqiverif.core import MachineryError
+            raise MachineryError("ConjugateApprox %s made no numpy.random.gamma request on %s" % (iface, key))
+        (a1, r1), (a2, r2) = res["g"][0][0][:2], res["g"][1][0][:2]
+        if c["chg"] in ("alpha", "beta"):
+            da = float(_fr(c2["alpha"]) - _fr(c["alpha"]))
+            db = float(_fr(c2["beta"]) - _fr(c["beta"]))
+            if abs((a2 - a1) - da) > 1e-9 * max(1.0, abs(a1)) or abs((r2 - r1) - db) > 1e-9 * max(1.0, abs(r1)):
+                ctx.mismatch("pair_gamma/%s/draw=2" % sig, c, "after the Gamma prior's %s was replaced (%s) the second draw of the same "
+                             "sampler is not made from the Gamma with the new prior parameter (shape and rate must move by the change "
+                             "of alpha and beta)" % (c["chg"], c["how"]), expected=(a1 + da, r1 + db), observed=(a2, r2))
+        else:
+            ref = run_sampler(iface, build_target(c2, "pair"), c["init"], draws[1:])
+            if ref["stage"] is None and ref["gammas"]:
+                a0, r0 = ref["gammas"][0][:2]
+                if abs(a2 - a0) > 1e-9 * max(1.0, abs(a0)) or abs(r2 - r0) > 1e-9 * max(1.0, abs(r0)):
+                    ctx.mismatch("pair_gamma/%s/draw=2" % sig, c, "after a posterior with other data was assigned the second draw of the same "
+                                 "sampler is not made from the Gamma a fresh sampler draws from for that posterior",
+                                 expected=(a0, r0), observed=(a2, r2))
+
+
 def replay_lmrf(ctx, c):
     key = _key(c)
     try:
         target = build_target(c, "pair")
     except Exception as e:
+        if c.get("mayrefuse"):
+            _form_outcome(ctx, c, "joint", "posterior cannot be formed: %s" % type(e).__name__)
+            return
         ctx.mismatch("build/pair/" + key, c, "the posterior cannot be formed by conditioning the joint distribution: %r" % e)
         return
     draws = _own_draws(c)
@@ -563,6 +772,10 @@ def replay_lmrf(ctx, c):
             # the legacy class documents no validation: outcomes are recorded only
             ctx.observations.setdefault("legacy_approx_outcomes", {})["%s/%s/gdim=%d/v=%d" % (c["gbc"], c["dep"], c["gdim"], c["v"])] = \
                 res["stage"] or "samples"
+            if c["accept"] and res["stage"] is None:
+                _check_approx_form(ctx, c, iface, sig, res, draws)
+            elif _is_form(c):
+                _form_outcome(ctx, c, iface, "refused (%s)" % res["stage"])
             continue
         if not c["accept"]:
             if res["stage"] != "construct":
@@ -570,12 +783,16 @@ def replay_lmrf(ctx, c):
                              "(Gamma on the inverse scale, univariate, zero location)" % _VIA_TEXT[via], "exception when the target is given",
                              res["error"] or res["gammas"][:1])
             continue
+        if c.get("mayrefuse") and res["stage"] == "construct":
+            _form_outcome(ctx, c, iface, "refused (construct): %s" % (res["error"] or "").split(":")[0])
+            continue
         if res["stage"] is not None:
             ctx.mismatch("rejects_supported/" + sig, c, "the documented (LMRF, Gamma) pair is refused (%s): %s" % (res["stage"], res["error"]))
             continue
         if not _is_subsequence(res["chain"], res["returned"]) or len(res["chain"]) != len(draws):
             ctx.mismatch("chain_value/" + sig, c, "the chain is not made of the values returned by the Gamma generator",
                          [float(v) for v in draws], res["chain"])
+        _check_approx_form(ctx, c, iface, sig, res, draws)
         # approximation quality: observation only (the docstring promises "approximated by", no bound)
         exact_shape = c["nrows"] + float(_fr(c["alpha"]))
         exact_rate = c["l1"] + float(_fr(c["beta"]))
@@ -775,7 +992,9 @@ def _choose_variant(ctx, variants):
 
 
 def replay_case(ctx, c):
-    if c["fam"] == "direct":
+    if _chg(c) != "none":
+        replay_pair(ctx, c)
+    elif c["fam"] == "direct":
         replay_direct(ctx, c)
     elif c["fam"] == "lmrf":
         replay_lmrf(ctx, c)
@@ -783,9 +1002,10 @@ def replay_case(ctx, c):
         replay_conj(ctx, c)
 
 
-ACTIONS = ["Build", "ConstructBase", "StepBase", "Validate", "SetTarget", "ComputeShapeRate", "Draw", "DrawOther"]
+ACTIONS = ["Build", "ConstructBase", "StepBase", "Validate", "SetTarget", "ComputeShapeRate", "Draw", "DrawOther", "Change"]
 DEVIATIONS = {"ShapeLen": "DrawnIsTarget", "ScaleAtCurrent": "DrawnIsTarget", "NoProbe": "DrawnIsTarget",
-              "StalePair": "DrawnIsTarget", "ValidateFirstOnly": "DecisionIgnoresHistory"}
+              "StalePair": "DrawnIsTarget", "ValidateFirstOnly": "DecisionIgnoresHistory",
+              "ShapeLenMean": "FormIndependent", "CacheFirstDraw": "SecondDrawIsNew"}
 
 
 def run(ctx):
@@ -797,15 +1017,46 @@ def run(ctx):
     ctx.model_must_hold(res, "Conjugate")
     cases = res.cases
     _tlc.cleanup(res)
-    # named deviations: each must violate DrawnIsTarget on the model (non-vacuity; design-level account of the findings)
+    # named deviations: each must violate its invariant on the model (non-vacuity; design-level account of the findings).
+    # The TLC runs (a few seconds each, they stop at the first counterexample) proceed while the cases are replayed.
+    from concurrent.futures import ThreadPoolExecutor
+
+    def dev_run(dev):
+        return _tlc.run_tlc("Conjugate", cfg="Conjugate.dev_%s.cfg" % dev, workers=4, timeout=600, extra_modules=("DiffOps.tla",),
+                            expect_violation=True, workdir=os.path.join(_tlc.WORK, "Conjugate-dev_%s-%d" % (dev, os.getpid())))
+    pool = ThreadPoolExecutor(max_workers=4)
+    futures = {dev: pool.submit(dev_run, dev) for dev in DEVIATIONS}
+    try:
+        _replay_all(ctx, cases)
+    finally:
+        done = {}
+        for dev, fu in futures.items():
+            try:
+                done[dev] = fu.result()
+            except Exception as e:
+                done[dev] = e
+        pool.shutdown()
     for dev, inv in DEVIATIONS.items():
-        r = ctx.tlc("Conjugate", cfg="Conjugate.dev_%s.cfg" % dev, workers=16, timeout=600,
-                    extra_modules=("DiffOps.tla",), expect_violation=True)
+        r = done[dev]
+        if isinstance(r, Exception):
+            raise r if isinstance(r, (MachineryError, _tlc.MachineryError)) else MachineryError("deviation run %s failed: %r" % (dev, r))
+        ctx.states += r.distinct
+        ctx.transitions += r.generated
+        ctx.tlc_runs.append({"spec": "Conjugate", "cfg": "Conjugate.dev_%s.cfg" % dev, "distinct": r.distinct, "generated": r.generated,
+                             "depth": r.depth, "wall_s": round(r.wall_s, 2), "cases": len(r.cases), "violated": r.violated,
+                             "coverage": None})
+        _tlc.cleanup(r)
         if r.violated != inv:
             raise MachineryError("deviation %s does not violate %s (violated=%r): vacuous invariant" % (dev, inv, r.violated))
-        _tlc.cleanup(r)
     ctx.observe("deviations_violating_DrawnIsTarget", [d for d, i in DEVIATIONS.items() if i == "DrawnIsTarget"])
     ctx.observe("deviations_violating_DecisionIgnoresHistory", [d for d, i in DEVIATIONS.items() if i == "DecisionIgnoresHistory"])
+    ctx.observe("deviations_violating_FormIndependent", [d for d, i in DEVIATIONS.items() if i == "FormIndependent"])
+    ctx.observe("deviations_violating_SecondDrawIsNew", [d for d, i in DEVIATIONS.items() if i == "SecondDrawIsNew"])
+
+
+def _replay_all(ctx, cases):
+    """Replay every case emitted by TLC into the real samplers."""
+    from cuqiverif.core import MachineryError
     if not cases:
         raise MachineryError("no cases emitted by Conjugate")
     groups = {}
@@ -813,9 +1064,17 @@ def run(ctx):
         groups.setdefault((_key(c), c["tgt"], tuple(c["chain"])), []).append(c)
     n_acc = n_rej = 0
     paths = {}
+    dims = {}
     for gk in sorted(groups):
         for c in _choose_variant(ctx, groups[gk]):
             replay_case(ctx, c)
+            for f in ("mform", "dform", "sform"):
+                if c["fam"] in ("gaussian", "gmrf", "lmrf") and _chg(c) == "none":
+                    k = "%s/%s=%s/%s" % (c["fam"], f, c.get(f), "ctor" if _via(c) == "ctor" else "set")
+                    dims[k] = dims.get(k, 0) + 1
+            if _chg(c) != "none":
+                k = "%s/chg=%s/how=%s" % (c["fam"], c["chg"], c["how"])
+                dims[k] = dims.get(k, 0) + 1
             n_acc += bool(c["accept"])
             n_rej += not c["accept"]
             k = "%s/%s" % (_via(c), "accept" if c["accept"] else "reject")
@@ -826,6 +1085,19 @@ def run(ctx):
             if not paths.get("%s/%s" % (v, o)):
                 raise MachineryError("no case of Conjugate.tla reaches a sampler on path %s with outcome %s" % (v, o))
     ctx.observe("cases_by_path_and_outcome", paths)
+    # every writing of the inputs (per family, by the constructor and by assignment) and every kind of pair of
+    # configurations of the specification must have been replayed (vacuity guard)
+    need = ["%s/mform=scalar/%s" % (f, p) for f in ("gaussian", "gmrf", "lmrf") for p in ("ctor", "set")] + \
+           ["gaussian/mform=%s/ctor" % m for m in ("constvec", "callable")] + ["gmrf/mform=%s/ctor" % m for m in ("callable", "model")] + \
+           ["%s/dform=%s/%s" % (f, d, p) for f in ("gaussian", "gmrf", "lmrf") for d in ("cuqiarray", "list") for p in ("ctor", "set")] + \
+           ["gaussian/sform=%s/%s" % (sf, p) for sf in ("vector", "matrix") for p in ("ctor", "set")] + \
+           ["%s/chg=%s/how=%s" % (f, ch, h) for f in ("gaussian", "gmrf", "lmrf") for ch, h in
+            (("data", "set_target"), ("alpha", "set_target"), ("beta", "set_target"), ("alpha", "assign"), ("beta", "assign"))] + \
+           ["%s/chg=%s/how=set_target" % (f, ch) for f in ("gaussian", "gmrf") for ch in ("mean", "all")]
+    for k in need:
+        if not dims.get(k):
+            raise MachineryError("no case of Conjugate.tla with %s was replayed" % k)
+    ctx.observe("cases_by_input_form_and_pair", dims)
     for k in ("legacy_refuses_at_step_not_construction", "legacy_accepts_undocumented_but_exact_rows"):
         if k in ctx.observations:
             ctx.observations[k] = sorted(set(ctx.observations[k]))
@@ -835,10 +1107,11 @@ def run(ctx):
     for c in pick:
         ctx.sample({"case": {k: c[k] for k in ("fam", "pd", "n", "gbc", "gorder", "attr", "dep", "model", "v", "b", "mu0", "alpha", "beta",
                                                "m", "k", "q", "shape", "rate", "accept", "conjugable", "chain")}})
-    ctx.rule = ("one case per terminal state (rejected / done) of Conjugate.tla: instance x path on which the posterior reaches the sampler "
-                "(constructor / target assigned to a sampler without target / constructed on / stepped on a supported posterior) x scripted "
-                "chain, with exact rational shape/rate, rank, quadratic form and the expected outcome; non-trivial = distinct (instance, "
-                "path, realisation of the joint, interface, chain)")
+    ctx.rule = ("one case per terminal state (rejected / done) of Conjugate.tla: instance (incl. the writing of the mean / data / scale "
+                "and, for a pair of configurations on one sampler, what is replaced and how) x path on which the posterior reaches the "
+                "sampler (constructor / target assigned to a sampler without target / constructed on / stepped on a supported posterior) "
+                "x scripted chain, with exact rational shape/rate, rank, quadratic form and the expected outcome; non-trivial = distinct "
+                "(instance, path, realisation of the joint, interface, chain)")
     ctx.exhaustive = True
     ctx.observe("cases_accept_reject", [n_acc, n_rej])
     ctx.assumptions += ["sizes bounded by the cfg (MaxN1, MaxN2, MaxG); dependence kinds limited to the modelled family",
